@@ -26,7 +26,7 @@ type CV struct {
 	Tag  int            `json:"tag,omitempty"`
 	P    int            `json:"p,omitempty"`
 	M    map[string]*CV `json:"m,omitempty"`
-	MT   int            `json:"mt,omitempty"` // map: 0 map[string]any, 1 map[string]string (every value a str), 2 map[string]int (every value an int), 3 map[int]string (keys in decimal)
+	MT   int            `json:"mt,omitempty"` // map: 0 map[string]any, 1 map[string]string (every value a str), 2 map[string]int (every value an int), 3 map[int]string (keys in decimal), 4 MyMap (a named map[string]string)
 	// map: the Go value is the typed nil map (the model does not distinguish it from the empty map)
 	NilMap bool `json:"nilmap,omitempty"`
 }
@@ -41,6 +41,15 @@ type S0 struct{ A int }
 type S1 struct{ B int }
 type MyStr string
 type MyInt int
+
+// Tagged: a non-empty interface type WITHOUT a registered function, implemented by S0 and *S0:
+// a stream of Tagged is concatenated by dynamic type exactly like a stream of any.
+type Tagged interface{ Tag() int }
+
+func (s S0) Tag() int { return s.A }
+
+// MyMap: a NAMED map type (MT 4): concatMaps must build the result with the chunk type itself
+type MyMap map[string]string
 
 const nOtherTags = 10
 
@@ -119,8 +128,17 @@ func (v *CV) toGo() any {
 				return map[string]int(nil)
 			case 3:
 				return map[int]string(nil)
+			case 4:
+				return MyMap(nil)
 			}
 			return map[string]any(nil)
+		}
+		if v.MT == 4 {
+			m := make(MyMap, len(v.M))
+			for k, e := range v.M {
+				m[k] = e.S
+			}
+			return m
 		}
 		if v.MT == 3 {
 			m := make(map[int]string, len(v.M))
@@ -223,6 +241,12 @@ func fromGo(x any) *CV {
 			m[k] = &CV{K: "str", S: e}
 		}
 		return &CV{K: "map", MT: 1, M: m}
+	case MyMap:
+		m := map[string]*CV{}
+		for k, e := range t {
+			m[k] = &CV{K: "str", S: e}
+		}
+		return &CV{K: "map", MT: 4, M: m}
 	case map[string]int:
 		m := map[string]*CV{}
 		for k, e := range t {
@@ -279,6 +303,7 @@ type Case struct {
 	MMaps  []MMap   `json:"mmaps,omitempty"` // msgmap: map chunks whose values may be messages
 	Typed  bool     `json:"typed,omitempty"` // msgmap: static type map[string]*schema.Message instead of map[string]any
 	Any    bool     `json:"any,omitempty"`   // generic: the static chunk type is any (interface-typed stream)
+	Tagged bool     `json:"tagged,omitempty"` // generic + any: the static chunk type is the interface type Tagged (every chunk is an S0, a *S0 or nil)
 	Fanin  bool     `json:"fanin,omitempty"` // msgmap: every chunk holds one message under one key; also run as a compose fan-in
 	// generic (not any) / msg: the reader reports a read error in front of chunk ErrAt (0..len); only the
 	// stream-level entry points are run
@@ -335,6 +360,37 @@ func concatAnyGo(chunks []*CV) (o Obs) {
 		return Obs{Class: "err", Msg: err.Error()}
 	}
 	return Obs{Class: "val", Val: fromGo(out)}
+}
+
+// concatTaggedGo runs concatStreamReader[Tagged] (chunks: S0, *S0, nil)
+func concatTaggedGo(chunks []*CV) (o Obs) {
+	vals := make([]Tagged, len(chunks))
+	for i, c := range chunks {
+		if v := c.toGo(); v != nil {
+			vals[i] = v.(Tagged)
+		}
+	}
+	var out Tagged
+	var err error
+	p := lib.Recover(func() {
+		out, err = compose.VerifConcatStreamReader(schema.StreamReaderFromArray(vals))
+	})
+	if p != nil {
+		return Obs{Class: "panic", Msg: fmt.Sprint(p)}
+	}
+	if err != nil {
+		return Obs{Class: "err", Msg: err.Error()}
+	}
+	return Obs{Class: "val", Val: fromGo(any(out))}
+}
+
+func taggedOK(chunks []*CV) bool {
+	for _, c := range chunks {
+		if !(c.K == "nil" || (c.K == "other" && (c.Tag == 0 || c.Tag == 4))) {
+			return false
+		}
+	}
+	return true
 }
 
 // isNumCase: the static chunk type is the interface type Num (every chunk has tag 9)
@@ -425,6 +481,8 @@ func concatGoErr(chunks []*CV, errAt int) (o Obs) {
 			out, err = concatTyped[map[string]any](vals, errAt)
 		case map[int]string:
 			out, err = concatTyped[map[int]string](vals, errAt)
+		case MyMap:
+			out, err = concatTyped[MyMap](vals, errAt)
 		default:
 			panic("harness: unsupported top-level chunk type")
 		}
@@ -539,6 +597,7 @@ const (
 	tdMapStr
 	tdMapInt
 	tdMapIK // map[int]string
+	tdMyMap // MyMap
 	tdNil
 	nTD
 	tdNum = nTD // the interface type Num: only as the static chunk type of a stream
@@ -546,10 +605,10 @@ const (
 
 // same reflect.Kind, different Go type
 var sibling = map[int]int{tdStr: tdMyStr, tdMyStr: tdStr, tdInt: tdMyInt, tdMyInt: tdInt, tdS0: tdS1, tdS1: tdAcc,
-	tdPS0: tdPS1, tdPS1: tdPS0, tdMapAny: tdMapStr, tdMapStr: tdMapInt, tdMapInt: tdMapIK, tdMapIK: tdMapAny, tdAcc: tdLim, tdLim: tdS0}
+	tdPS0: tdPS1, tdPS1: tdPS0, tdMapAny: tdMapStr, tdMapStr: tdMyMap, tdMyMap: tdMapInt, tdMapInt: tdMapIK, tdMapIK: tdMapAny, tdAcc: tdLim, tdLim: tdS0}
 
 var tdNames = []string{"string", "int", "int64", "bool", "float64", "S0", "S1", "MyStr", "MyInt", "*S0", "*S1", "Acc", "Lim", "[]string",
-	"map[string]any", "map[string]string", "map[string]int", "map[int]string", "nil", "Num"}
+	"map[string]any", "map[string]string", "map[string]int", "map[int]string", "MyMap", "nil", "Num"}
 
 func genVal(r *lib.Rng, td, depth int) *CV {
 	payload := []int{0, 0, 1, 2}[r.Intn(4)]
@@ -587,6 +646,15 @@ func genVal(r *lib.Rng, td, depth int) *CV {
 			m[r.Pick([]string{"0", "1", "-7", "42"})] = &CV{K: "str", S: r.Pick(strPool)}
 		}
 		return &CV{K: "map", MT: 3, M: m}
+	case tdMyMap:
+		if r.Chance(1, 10) {
+			return &CV{K: "map", MT: 4, NilMap: true}
+		}
+		m := map[string]*CV{}
+		for j, nk := 0, r.Intn(3); j < nk; j++ {
+			m[r.Pick(keyPool)] = &CV{K: "str", S: r.Pick(strPool)}
+		}
+		return &CV{K: "map", MT: 4, M: m}
 	case tdMapStr:
 		if r.Chance(1, 10) {
 			return &CV{K: "map", MT: 1, NilMap: true}
@@ -663,7 +731,7 @@ func genGeneric(r *lib.Rng, tier string) *Case {
 		c.Any = true
 		td := r.Intn(nTD - 1) // the dynamic type most chunks have: every type, pointers included
 		if r.Chance(1, 4) {
-			td = []int{tdPS0, tdMapAny, tdPS1, tdStr}[r.Intn(4)]
+			td = []int{tdPS0, tdMapAny, tdPS1, tdStr, tdS0}[r.Intn(5)]
 		}
 		for i := 0; i < n; i++ {
 			t := td
@@ -683,6 +751,7 @@ func genGeneric(r *lib.Rng, tier string) *Case {
 				c.Chunks = append(c.Chunks, genVal(r, t, depth))
 			}
 		}
+		c.Tagged = taggedOK(c.Chunks) && r.Chance(2, 3)
 		return c
 	}
 	for i := 0; i < n; i++ {
@@ -736,12 +805,24 @@ func (engine) Run(ci any) lib.Result {
 	concatGo := concatGo
 	if c.Any {
 		concatGo = concatAnyGo
+		if c.Tagged && taggedOK(c.Chunks) {
+			// re-chunked lists stay within S0 / *S0 / nil: results of those types only
+			concatGo = func(chunks []*CV) Obs {
+				if !taggedOK(chunks) {
+					return concatAnyGo(chunks)
+				}
+				return concatTaggedGo(chunks)
+			}
+		}
 	}
 	o := concatGo(c.Chunks)
 	res.Obs = o
 	res.Tags = []string{"kind:generic", "class:" + o.Class, fmt.Sprintf("chunks:%d", len(c.Chunks))}
 	if c.Any {
 		res.Tags = append(res.Tags, "static:any")
+		if c.Tagged && taggedOK(c.Chunks) {
+			res.Tags = append(res.Tags, "static:Tagged")
+		}
 	}
 	if len(c.Chunks) > 0 {
 		res.Tags = append(res.Tags, "top:"+c.Chunks[0].K)
@@ -809,6 +890,11 @@ func (engine) Run(ci any) lib.Result {
 			res.Oracle = why
 			res.Sig = "registered-fn-not-applied"
 		}
+		// "maps of these": under every key the values are concatenated as a stream of their own type is
+		if why := perKeySpec(c, o); why != "" && res.Oracle == "" {
+			res.Oracle = why
+			res.Sig = "map-not-keywise"
+		}
 		// re-chunking: concatenate any segment [i,j) first, splice the result in, concatenate again
 		n := len(c.Chunks)
 		for i := 0; i < n && res.Oracle == ""; i++ {
@@ -853,6 +939,8 @@ func chainTyped(chunks []*CV, errAt int) (Obs, bool) {
 		return concatViaChain[map[string]any](chunks, errAt), true
 	case map[int]string:
 		return concatViaChain[map[int]string](chunks, errAt), true
+	case MyMap:
+		return concatViaChain[MyMap](chunks, errAt), true
 	case Acc:
 		return concatViaChain[Acc](chunks, errAt), true
 	case S0:
@@ -917,13 +1005,16 @@ func goTypeName(v *CV) string {
 		if v.MT == 3 {
 			return "map[int]string"
 		}
+		if v.MT == 4 {
+			return "MyMap"
+		}
 		return "map[string]any"
 	}
 	return ""
 }
 
 var kindOf = map[string]string{"string": "string", "MyStr": "string", "int": "int", "MyInt": "int", "S0": "struct", "S1": "struct",
-	"*S0": "ptr", "*S1": "ptr", "Acc": "struct", "Lim": "struct", "[]string": "slice", "map[string]any": "map", "map[string]string": "map", "map[string]int": "map", "map[int]string": "map", "Num": "interface", "int64": "int64", "bool": "bool", "float64": "float64"}
+	"*S0": "ptr", "*S1": "ptr", "Acc": "struct", "Lim": "struct", "[]string": "slice", "map[string]any": "map", "map[string]string": "map", "map[string]int": "map", "map[int]string": "map", "MyMap": "map", "Num": "interface", "int64": "int64", "bool": "bool", "float64": "float64"}
 
 // clashTags reports whether some key (at any depth, following the first map per key) holds
 // values of different Go types, and whether two of them share a reflect.Kind.
@@ -969,6 +1060,82 @@ func clashTags(chunks []*CV) []string {
 		out = append(out, "feat:same-kind-clash")
 	}
 	return out
+}
+
+// perKeySpec: for a list (>= 2) of map[string]any chunks the result must be, key by key, what
+// concatStreamReader gives on the non-nil values found under that key taken as a stream of
+// their own static type (nil when there is none; an error of the whole when the values of some
+// key are of different types or do not concatenate) — the implementation's own typed path is the
+// specification of its keyed path (theorems maps_are_keyed / fields_merged: result[k] = concat (values at k)).
+func perKeySpec(c *Case, o Obs) string {
+	if c.Any || len(c.Chunks) < 2 || o.Class == "panic" {
+		return ""
+	}
+	seen := map[string]bool{}
+	var keys []string
+	for _, ch := range c.Chunks {
+		if ch.K != "map" || ch.MT != 0 {
+			return ""
+		}
+		for k := range ch.M {
+			if !seen[k] {
+				seen[k] = true
+				keys = append(keys, k)
+			}
+		}
+	}
+	sort.Strings(keys)
+	expected := map[string]*CV{}
+	mustFail := ""
+	for _, k := range keys {
+		var vals []*CV
+		for _, ch := range c.Chunks {
+			if v, ok := ch.M[k]; ok && v.K != "nil" {
+				vals = append(vals, v)
+			}
+		}
+		if len(vals) == 0 {
+			expected[k] = &CV{K: "nil"}
+			continue
+		}
+		same := true
+		for _, v := range vals {
+			if goTypeName(v) != goTypeName(vals[0]) {
+				same = false
+			}
+		}
+		if !same {
+			mustFail = fmt.Sprintf("key %q holds values of different types", k)
+			continue
+		}
+		ok := concatGo(vals)
+		switch ok.Class {
+		case "panic":
+			return fmt.Sprintf("the values under key %q panic as a stream of %s: %s", k, goTypeName(vals[0]), ok.Msg)
+		case "err":
+			mustFail = fmt.Sprintf("the values under key %q do not concatenate as a stream of %s (%s)", k, goTypeName(vals[0]), ok.Msg)
+		default:
+			expected[k] = ok.Val
+		}
+	}
+	if mustFail != "" {
+		if o.Class != "err" {
+			return mustFail + ", but the map chunks concatenate to " + js(o)
+		}
+		return ""
+	}
+	if o.Class != "val" {
+		return "under every key the values concatenate as a stream of their own type, but the map chunks fail: " + o.Msg
+	}
+	if o.Val.K != "map" || len(o.Val.M) != len(expected) {
+		return fmt.Sprintf("the result has %d keys, the chunks have %d", len(o.Val.M), len(expected))
+	}
+	for _, k := range keys {
+		if got, ok := o.Val.M[k]; !ok || !reflect.DeepEqual(normalize(got), normalize(expected[k])) {
+			return fmt.Sprintf("key %q: the map chunks give %s, the values as a stream of their own type give %s", k, js(got), js(expected[k]))
+		}
+	}
+	return ""
 }
 
 // registeredSpec: for a statically typed stream (>= 2 chunks) of one of the types this
